@@ -285,7 +285,9 @@ def run(ck):
                     got, w = p.value.term, want()
                     if all(len(s_) == 1 for s_ in shapes):
                         got, w = vec_dot_normal(got), vec_dot_normal(w)  # contractions of vectors: one normal form
-                    if got == w:
+                    if got is None:
+                        ck.undecided("C15.R5", fname, fi.site(), "the result is not a term the analyser can follow")
+                    elif got == w:
                         ck.ok("C15.R5", fname, fi.site(), got=got)
                     elif T.ratfun_equal(got, w):
                         ck.ok("C15.R5", fname, fi.site(), got=got)
